@@ -372,6 +372,9 @@ type PathQuery struct {
 	FlagBlind bool
 	// Explored is incremented per visited state.
 	Explored *int
+	// NonNil / IsNil: values assumed non-nil / nil on every path (e.g. "with an observer").
+	NonNil []ssa.Value
+	IsNil  []ssa.Value
 }
 
 // FindPath returns a witness path (rendered blocks) or nil when no feasible path exists.
@@ -494,6 +497,12 @@ func FindPath(p *Prog, q PathQuery) []string {
 	}
 
 	env := pathEnv{}
+	for _, v := range q.NonNil {
+		env[v] = envVal{known: true, nonNil: true}
+	}
+	for _, v := range q.IsNil {
+		env[v] = envVal{known: true, isNil: true}
+	}
 	switch {
 	case q.StartAfter != nil:
 		b := q.StartAfter.Block()
